@@ -149,6 +149,50 @@ let do_op k (args : string list) =
   | ["reset"] -> let (s', evs) = Layer.reset c s in setl s'; out_line evs [] (status s')
   | _ -> failwith ("op " ^ S.concat " " args)
 
+(* ---- threaded wrapper model (Model/Threaded.v): lifecycle operations on instance k ---- *)
+let tls : (int, Threaded.tl) Hashtbl.t = Hashtbl.create 7
+let rec int_of_nat = function Datatypes.O -> 0 | Datatypes.S n -> 1 + int_of_nat n
+let do_tl k (args : string list) =
+  let i = Hashtbl.find insts k in
+  let c = i.cfg in
+  match args with
+  | ["init"; t0] -> Hashtbl.replace tls k (Threaded.tl_init c (zi t0)); print_endline "ok"
+  | _ ->
+    let s = Hashtbl.find tls k in
+    let op = match args with
+      | ["start"] -> Threaded.LStart | ["stop"] -> Threaded.LStop
+      | ["send"; t; hex] ->
+          let data = hex_to_bytes hex in
+          Threaded.LSend ({ g_items = data; g_fill = None }, z_of_int (L.length data), tat_of t)
+      | ["recv"] -> Threaded.LRecv | ["stop_sending"] -> Threaded.LStopSending
+      | ["stop_receiving"] -> Threaded.LStopReceiving
+      | ["process"] -> Threaded.LProcess | ["reset"] -> Threaded.LReset
+      | ["worker"; dorx] -> Threaded.LWorker (bool_of dorx)
+      | ["deliver"; id; ext; hex] ->
+          Threaded.LDeliver { f_id = z_of_int (int_of_string id); f_ext = bool_of ext; f_data = hex_to_bytes hex;
+                              f_dlc = Z0; f_fd = false; f_brs = false }
+      | ["tick"; ns] -> Threaded.LTick (zi ns)
+      | _ -> failwith ("tl op " ^ S.concat " " args) in
+    let ((s', out), evs) = Threaded.lstep !fuel c s op in
+    Hashtbl.replace tls k s';
+    let o = match out with
+      | Threaded.LOk -> "ok" | Threaded.LRuntimeError -> "runtimeerror" | Threaded.LValueError -> "valueerror"
+      | Threaded.LGot None -> "got:none" | Threaded.LGot (Some d) -> "got:" ^ bytes_to_hex d in
+    let l = s'.Threaded.t_w.Layer.w_l in
+    Printf.printf "%s %s | started=%s threads=%d inbox=%d %s\n" o (S.concat " " (L.map event_str evs))
+      (b01 s'.Threaded.t_started) (int_of_nat s'.Threaded.t_threads) (L.length s'.Threaded.t_w.Layer.w_inbox) (status l)
+
+(* merge of per-thread payload lists under a schedule: M c0,c1,.. s0,s1,.. -> "i:k ..." *)
+let do_merge (args : string list) =
+  match args with
+  | [counts; sched] ->
+      let ints s = if s = "-" then [] else L.map int_of_string (S.split_on_char ',' s) in
+      let pend = L.map (fun n -> L.init n (fun k -> z_of_int k)) (ints counts) in
+      let sch = L.map (fun i -> nat_of_int i Datatypes.O) (ints sched) in
+      let (q, _) = Threaded.run_sched sch pend [] in
+      print_endline (S.concat " " (L.map (fun (i, k) -> Printf.sprintf "%d:%d" (int_of_nat i) (int_of_z k)) q))
+  | _ -> failwith "merge"
+
 let opt_str = function None -> "none" | Some z -> string_of_int (int_of_z z)
 
 let do_query (args : string list) =
@@ -291,6 +335,8 @@ let () =
        | "S" :: args -> do_sock args
        | "K" :: args -> do_kern args
        | "V" :: args -> do_validate args
+       | "T" :: k :: args -> do_tl (int_of_string k) args
+       | "M" :: args -> do_merge args
        | ["ECHO"; s] -> print_endline s
        | _ -> failwith ("line " ^ line));
       flush stdout
